@@ -79,10 +79,17 @@ Proof.
   intros Hwf Hm. apply (gen_move_ok_iff p m p' (wf_pos_shape p Hwf)) in Hm. eapply wf_step; eassumption.
 Qed.
 
-(* ---------- C02 on the translated source (has_road itself enters as the hand model's) ---------- *)
+(* ---------- C02 on the translated source (winner calls the TRANSLATED has_road / _walk) ---------- *)
+(* the translated road search answers the declarative road question *)
+Theorem gen_has_road_verdict p : RoadSpec.wf_pos p -> forall o, RoadSpec.road_verdict p o <-> GameGen.has_road p = Ok o.
+Proof.
+  intros Hwf o. rewrite (gen_has_road_eq p Hwf), (RoadProofs.has_road_spec p Hwf o).
+  split; intros H; [rewrite H; reflexivity|injection H as H; exact H].
+Qed.
+
 Theorem gen_winner_outcome p : RoadSpec.wf_pos p -> forall r, RoadSpec.outcome p r <-> GameGen.winner p = Ok r.
 Proof.
-  intros Hwf r. rewrite gen_winner_eq. rewrite (RoadProofs.winner_spec p Hwf r).
+  intros Hwf r. rewrite (gen_winner_eq p Hwf). rewrite (RoadProofs.winner_spec p Hwf r).
   split; intros H; [rewrite H; reflexivity|injection H as H; exact H].
 Qed.
 
